@@ -19,7 +19,7 @@ RULE = ("crossovers / flip / binomial: ALL outcomes of the random draws enumerat
 ASSUMPTIONS = ["primitives return values in their documented range", "fitness / rank finite"]
 TRUSTED = ["models: coq/theories/BinaryOps.v, Pools.v, RandomPrims.v; checkers C06Check.v; translator harness/translate_pools.py"]
 THEORIES = ["Base", "RandomPrims", "RandomPrimsProofs", "RandomPrimsProofs2", "BinaryOps", "BinaryOpsProofs",
-            "Pools", "C11Check", "C06Check", "GenPools"]
+            "Pools", "C11Check", "C06Check", "PoolsClosed", "GenPools"]
 IMPORTS = "From TF Require Import Base RandomPrims BinaryOps Pools C11Check C06Check.\nFrom TFG Require Import GenPools.\nFrom Coq Require Import String.\nOpen Scope string_scope."
 EPS = 2.0 ** -53
 CX = "thefittest.utils.crossovers."
